@@ -260,7 +260,10 @@ def std_stages(tier, seed, battery, closed=("split", "long"), kinds_random=None,
             ("uint32", "ptr"), ("alpha/string", "string"), ("float64", "rich"), ("int16", "bytes"), ("alpha/bytes", "ptr"), ("uint64", "string")):
         st.append(Stage("gc", k, "random", size, battery, vt=vt, n=(2 if q else 6), len=(60 if q else 150)))
     # lengths and depths around 255 / 256 (closed), around 65535 / 65536 (random histories, no dumps)
-    st.append(Stage("model", "alpha/string", "huge", size, battery))
+    st.append(Stage("model", "alpha/string", "huge", size, battery, cap=(3000 if q else None)))
+    st.append(Stage("model", "alpha/bytes", "huge2", size, battery))
+    st.append(Stage("random", "compound/u8+str", "giant", size, battery, n=(2 if q else 6), len=(24 if q else 60), batevery=3, dumpevery=100000))
+    st.append(Stage("model", "compound/u16+str", "huge2", size, battery))
     st.append(Stage("random", "alpha/bytes", "giant", size, battery, n=(2 if q else 6), len=(24 if q else 60), batevery=3, dumpevery=100000))
     for u in closed:
         for k in mk:
@@ -361,6 +364,9 @@ def coll_stages(tier, battery, n=None, ln=None):
     st.append(Stage("random", "collation/bytes/und", "han", "q", battery, n=(2 if q else 10), len=(120 if q else 200), batevery=3))
     # strings of 1000+ characters: sort keys longer than the collator buffer's inline array
     st.append(Stage("random", "collation/string/und", "textlong", "q", battery, n=(2 if q else 8), len=(24 if q else 50), batevery=4, dumpevery=6))
+    # stored keys that are not in composed normal form: the tree must hand back the bytes that were inserted
+    for k in (["collation/string/und", "collation/bytes/sv"] if q else ["collation/string/und", "collation/bytes/sv", "collation/runes/und", "collation/string/fr"]):
+        st.append(Stage("random", k, "textnfd", "q", battery, n=(3 if q else 10), len=(40 if q else 100), batevery=2))
     # exactly 16 siblings at one sort-key position
     st.append(Stage("sim", "collation/string/und", "greek16", "q", battery, num=(2 if q else 8), depth=(220 if q else 440), ramp=True,
                     invs=["SizeOK", "AllOK"], every=False, batevery=1))
